@@ -119,12 +119,21 @@ def run_case(ctx, i, rng):
         if preproc:
             ops = {o for o in ops if not o.startswith("case-")}
         eol = rng.choice(["\n", "\n", "\r\n", "\r"])
-        hostile = rng.random() < 0.25
-        lay = LY.render(lines, rng, ops, eol, conservative=not hostile)
+        rcls = rng.random()
+        hostile = rcls < 0.2
+        # join-structural: any statements (scope openers/closers, CONTAINS, IMPLICIT ... too) are joined with `;`, nothing is split: upstream's
+        # parser takes such lines apart statement by statement, so the index (outline, diagnostics) must not change; go-to-definition is not
+        # compared in this class (line-based request-side context detection is a recorded finding)
+        joinstruct = 0.2 <= rcls < 0.4
+        if joinstruct:
+            ops = (ops - {"split"}) | {"join"}
+        elif hostile:
+            ops = ops | {"split"}
+        lay = LY.render(lines, rng, ops, eol, conservative=not (hostile or joinstruct))
         newfiles = dict(files)
         newfiles[target] = lay.text(eol).encode("utf-8") if eol != "\n" else lay.text(eol)
-        res.kind("class:hostile" if hostile else "class:conservative")
-        tag = ("hostile:" if hostile else "") + "+".join(sorted(ops) + [{"\n": "lf", "\r\n": "crlf", "\r": "cr"}[eol]])
+        res.kind("class:hostile" if hostile else ("class:join-structural" if joinstruct else "class:conservative"))
+        tag = ("hostile:" if hostile else ("join-structural:" if joinstruct else "")) + "+".join(sorted(ops) + [{"\n": "lf", "\r\n": "crlf", "\r": "cr"}[eol]])
         queries = {k: lay.pos[k] for k in queries0 if k in lay.pos}
         got = take_dump(newfiles, target, queries)
         wit = {"target": target, "ops": sorted(ops), "eol": eol, "original": text, "transformed": lay.text("\n"), "files": {k: v for k, v in files.items() if k != target}}
@@ -159,7 +168,7 @@ def run_case(ctx, i, rng):
         if bad:
             continue
         # definitions
-        for k in queries:
+        for k in (queries if not joinstruct else ()):
             res.count("evaluations")
             res.seen(target, tag, k)
             b, g = base["defs"].get(k), got["defs"].get(k)
@@ -212,7 +221,7 @@ def lines_text(lines, ol):
 def hostile_key(hostile, ops, key):
     """hostile class: statements that open/close scopes (MODULE, TYPE, SUBROUTINE, CONTAINS, END ..., bindings, IMPLICIT ...) are split over
     continuation lines inside their keywords or joined with `;` — upstream handles only part of these forms"""
-    if hostile and ({"split", "join"} & set(ops)) and not key.startswith("request-side:"):
+    if hostile and "split" in ops and not key.startswith("request-side:"):
         return "layout:split-or-join-of-structural-statement"
     return key
 
